@@ -116,16 +116,42 @@ def check(run, P):
 
 # {{{ order-dependent decisions inside unordered loops
 
-# (function, accumulator) -> reason.  Read and found harmless; NOT a suppression
-# of a finding: the decision taken on the accumulated state does not reach any
-# result.
-REVIEWED_CARRIED = {
-    ("dagrt.codegen.analysis.verify_single_definition_cond_rule", "cond_variables"):
-        "'if varname not in cond_variables: cond_variables[varname] = []' is the "
-        "setdefault idiom: it creates the bucket on first sight; the buckets' "
-        "contents are only counted afterwards (a verification pass that emits "
-        "nothing and returns nothing)",
-}
+
+def _is_groupby(n, acc):
+    """`if k not in acc: acc[k] = [x]  else: acc[k].append(x)` (either polarity,
+    the else branch optional when the bucket is created empty): the grouping
+    idiom, equivalent to acc.setdefault(k, []).append(x).  Which branch runs
+    depends on the order, what ends up under each key does not."""
+    if not isinstance(n, ast.If):
+        return False
+    t = n.test
+    if not (isinstance(t, ast.Compare) and len(t.ops) == 1
+            and isinstance(t.ops[0], (ast.In, ast.NotIn))):
+        return False
+    a = dotted(t.comparators[0])
+    if a is None or a not in acc:
+        return False
+    k = norm(t.left)
+    create, extend = (n.body, n.orelse) if isinstance(t.ops[0], ast.NotIn) else (n.orelse, n.body)
+
+    def creates(block):
+        st = [x for x in block if not isinstance(x, ast.Pass)]
+        return len(st) == 1 and isinstance(st[0], ast.Assign) and len(st[0].targets) == 1 \
+            and isinstance(st[0].targets[0], ast.Subscript) \
+            and dotted(st[0].targets[0].value) == a and norm(st[0].targets[0].slice) == k \
+            and isinstance(st[0].value, (ast.List, ast.Set, ast.Dict, ast.Call))
+
+    def extends(block):
+        st = [x for x in block if not isinstance(x, ast.Pass)]
+        if not st:
+            return True
+        return len(st) == 1 and isinstance(st[0], ast.Expr) and isinstance(st[0].value, ast.Call) \
+            and isinstance(st[0].value.func, ast.Attribute) \
+            and st[0].value.func.attr in ("append", "add", "update", "extend") \
+            and norm(st[0].value.func.value) == f"{a}[{k}]"
+
+    return creates(create) and extends(extend)
+
 
 _ACC_MUTATORS = {"append", "extend", "insert", "update", "add", "pop", "popitem",
                  "clear", "setdefault", "remove", "discard", "appendleft"}
@@ -156,6 +182,8 @@ def _decisions_on(lp, acc):
         for n in ast.walk(s):
             tests = []
             if isinstance(n, (ast.If, ast.While, ast.IfExp, ast.Assert)):
+                if _is_groupby(n, acc):
+                    continue
                 tests.append(n.test)
             if isinstance(n, ast.comprehension):
                 tests += n.ifs
@@ -179,17 +207,11 @@ def _carried(run, P, T):
         if not acc:
             continue
         dec = _decisions_on(node, acc)
-        names = sorted({d for d, _ in dec})
-        reviewed = [d for d in names if (f.fq, d) in REVIEWED_CARRIED]
-        open_ = [d for d in names if (f.fq, d) not in REVIEWED_CARRIED]
-        for d in reviewed:
-            run.note(f"C15.carried reviewed non-instance {d} in {f.fq}: "
-                     f"{REVIEWED_CARRIED[(f.fq, d)]}")
+        open_ = sorted({d for d, _ in dec})
         run.ob("C15.carried", f, node, not open_,
                construct=f"{what}: accumulates {sorted(acc)}"
                          + (f"; tests {open_} while filling it" if open_ else
-                            (f"; test on {reviewed} reviewed" if reviewed else
-                             "; no test reads them")),
+                            "; no test reads them (grouping idiom aside)"),
                why="a test on what earlier iterations have accumulated makes the "
                    "outcome depend on the iteration order (a single pass that keeps "
                    "an id unless something seen *so far* needs it computes a different "
